@@ -108,6 +108,10 @@ def check_visitor(ctx: Ctx, env, A: SqlAnalysis, langs, done: Dict[str, Dict[str
         else:
             ctx.ok("R2.no-placeholder", f"{vs}|{kind}", "handler present", nontrivial=False)
 
+    from .common import check_shared_caches
+    check_shared_caches(ctx, [t.path for t in A.all_tmpls()], "R6.no-state-shared-between-visitors",
+                        "a visitor configured differently (another table alias) emits what an earlier visitor computed",
+                        "two visitors with different table_alias translating the same field", vs)
     # ---- per-template rules -----------------------------------------------------------------------------------
     seen_text: Set[Tuple[str, str]] = set()
     for t in A.all_tmpls():
